@@ -41,17 +41,19 @@ def parseAnn (n : Nat) (s : String) : Option Ann := do
 
 /-- header `t=.. a=.. [v=pub]`; `v=pub` (the run through dot/core `Service.handleBlock`, which cannot see the
     unexported pending structures) restricts the output to the public observables -/
-def parseHeader (hd : String) : Option (Tree × Bool) := do
+def parseHeader (hd : String) : Option (Tree × Nat) := do
   let mut parents : List Nat := []
   let mut annS : Option String := none
-  let mut pub := false
+  let mut pub := 0
   for f in words hd do
     if f.startsWith "t=" then
       parents ← parseParents (f.drop 2).toString
     else if f.startsWith "a=" then
       annS := some (f.drop 2).toString
     else if f = "v=pub" then
-      pub := true
+      pub := 1
+    else if f = "v=burst" then
+      pub := 2
     else none
   let anns ← match annS with
     | none => some []
@@ -113,7 +115,7 @@ structure Run where
   /-- an import failed in digest handling / forced-change application (finding `failed-import-keeps-block`) -/
   failed : Bool
 
-def runOps (t : Tree) (pub : Bool) : Run → List (Option Op) → List String × List String × Bool × Bool
+def runOps (t : Tree) (pub : Nat) : Run → List (Option Op) → List String × List String × Bool × Bool
   | _, [] => ([], [], false, false)
   | r, none :: ops =>
     let (ms, ss, clean, tainted) := runOps t pub r ops
@@ -125,9 +127,16 @@ def runOps (t : Tree) (pub : Bool) : Run → List (Option Op) → List String ×
     let (s', res) := step t r.s op
     let (p', sres) := r.p.step t op
     let failed := r.failed || res = .eDigest .already || res = .eForced .pending
-    let priv := if pub then "" else " # " ++ privModel s'
-    let m := res.str ++ " " ++ pubModel t s' ++ priv
-    let sp := if oos then m else sres.str ++ " " ++ pubSpec t p' ++ priv
+    let priv := if pub ≠ 0 then "" else " # " ++ privModel s'
+    -- `v=burst` (the run through the real dot/digest finalisation handler): consecutive `fin` ops are one burst
+    -- whose finalisations are queued before the handler runs; only `e-fin` is visible per finalisation and the
+    -- state is read after the burst.  The handler must treat the burst as the finalisations one after the other.
+    let isFin := match op with | .fin _ => true | .imp _ => false
+    let nextFin := match ops with | some (.fin _) :: _ => true | _ => false
+    let cls := fun (r : Res) => if pub = 2 && isFin then (if r = .eFin then "e-fin" else "fin") else r.str
+    let m := if pub = 2 && isFin && nextFin then cls res else cls res ++ " " ++ pubModel t s' ++ priv
+    let sp := if oos then m
+      else if pub = 2 && isFin && nextFin then cls sres else cls sres ++ " " ++ pubSpec t p' ++ priv
     let (ms, ss, clean, tainted) := runOps t pub { s := s', p := p', oos := oos, failed := failed } ops
     (m :: ms, sp :: ss, clean || (sp != m && !failed), tainted || (sp != m && failed))
 
